@@ -18,7 +18,7 @@ Record tg_imid (c : connp) (done : list (option tx)) (fl : tg_aux) : Prop := mk_
   gq_txs : c_txs c = done;
   gq_shift : c_txs_shifted c = 0%nat;
   gq_flags : c_conn_flags c = ax_flags fl;
-  gq_onext : c_out_next_tx_index c = ax_onext fl /\ tn_rs c = ax_rs fl }.
+  gq_onext : c_out_next_tx_index c = ax_onext fl /\ tn_rs c = ax_rs fl /\ c_in_content_length c = ax_cl fl }.
 
 Lemma tg_imid_of_idl c d p done fl prev : tg_idl c d (length d) p done fl prev -> p = [] ->
   tg_imid (c <| c_in_status := c_HTP_STREAM_DATA |>) done fl.
@@ -83,11 +83,11 @@ Proof. intros <- S. rewrite tn_rs_fin. unfold tn_stable in S. cbn [c_out tn_rs] 
 
 Lemma tg_midw_finish w c p hdr st rh t : tg_midw w c p hdr st rh t -> tn_stable (c_out (ax_rs (gw_aux w))) -> tg_midw w (tn_fin c) p hdr st rh t.
 Proof.
-  intros [A1 A2 A3 A4 A5 A6 A7 A8 A9 A10 A11] S. destruct (tg_forget_fields c) as (F1 & F2 & F3). destruct A11 as [A11 A12].
-  constructor; rewrite ?F1, ?F2, ?F3; try assumption. split; [exact A11|apply tn_rs_fin_stable; assumption].
+  intros [A1 A2 A3 A4 A5 A6 A7 A8 A9 A10 A11] S. destruct (tg_forget_fields c) as (F1 & F2 & F3). destruct A11 as (A11 & A12 & A13).
+  constructor; rewrite ?F1, ?F2, ?F3; try assumption. split; [exact A11|split; [apply tn_rs_fin_stable; assumption|exact A13]].
 Qed.
 Lemma tg_imid_finish c done fl : tg_imid c done fl -> tn_stable (c_out (ax_rs fl)) -> tg_imid (tn_fin c) done fl.
 Proof.
-  intros [A1 A2 A3 A4 A5 A6 A7 A8 A9 A10] S. destruct (tg_forget_fields c) as (F1 & F2 & F3). destruct A10 as [A10 A11].
-  constructor; rewrite ?F1, ?F2, ?F3; try assumption. split; [exact A10|apply tn_rs_fin_stable; assumption].
+  intros [A1 A2 A3 A4 A5 A6 A7 A8 A9 A10] S. destruct (tg_forget_fields c) as (F1 & F2 & F3). destruct A10 as (A10 & A11 & A12).
+  constructor; rewrite ?F1, ?F2, ?F3; try assumption. split; [exact A10|split; [apply tn_rs_fin_stable; assumption|exact A12]].
 Qed.
